@@ -1,5 +1,5 @@
 (** C04 — failed TLV mutations leave the buffer untouched. *)
-From SplVerif Require Import Lib.Base Tlv.Model Tlv.Spec Tlv.Walk Tlv.Parse Tlv.Ops Tlv.Refine Tlv.Corollaries Tlv.AnyTail.
+From SplVerif Require Import Lib.Base Tlv.Model Tlv.Spec Tlv.Walk Tlv.Parse Tlv.Ops Tlv.Refine Tlv.Corollaries Tlv.AnyTail Tlv.FailedHistory.
 Local Open Scope N_scope.
 
 (** allocate / initialise / allocate-and-pack / resize / (typed) write: an error means
@@ -41,3 +41,18 @@ Example C04_nonvacuous :
   step (zeros 20) (OAlloc t 9 false) = (zeros 20, Err E_INVALID_ACCOUNT_DATA) /\
   fst (alloc_prefix (zeros 20) t 9 false) <> zeros 20.
 Proof. cbv zeta. split; [vm_compute; reflexivity|vm_compute; discriminate]. Qed.
+
+(** over whole histories (any length, any mix of allocate / initialise / allocate-and-pack /
+    resize / write operations): the operations that return an error might as well not have been
+    issued -- the final bytes are those of the history with the failed operations removed, and
+    the slab is still canonical *)
+Theorem C04_failed_ops_are_noops : forall ops n es,
+  fits n es -> Forall wf_op ops -> Forall (fun o => is_pack_var o = false) ops ->
+  run (render n es) ops = run_dropping_failed (render n es) ops /\
+  exists es', run (render n es) ops = render n es' /\ fits n es'.
+Proof. exact failed_ops_are_noops. Qed.
+Theorem C04_all_failed_identity : forall ops n es,
+  fits n es -> Forall wf_op ops -> Forall (fun o => is_pack_var o = false) ops ->
+  (forall o, In o ops -> exists e, snd (step (render n es) o) = Err e) ->
+  run (render n es) ops = render n es.
+Proof. exact all_failed_identity. Qed.
